@@ -16,6 +16,7 @@ import time
 from typing import Any, Callable
 
 import numpy as _np
+import os as _os
 import z3
 
 Fraction = fractions.Fraction
@@ -194,6 +195,14 @@ class Explorer:
                     continue
                 except Exception as e:  # a result of the program under test
                     self.path.exc = e
+                    if _os.environ.get("SYMX_DEBUG"):
+                        import traceback as _tbm
+
+                        where = " @ " + " <- ".join(f"{f.filename.rsplit('/', 1)[-1]}:{f.lineno}:{f.name}" for f in reversed(_tbm.extract_tb(e.__traceback__)[-7:]))
+                        try:
+                            e.args = ((str(e.args[0]) if e.args else "") + where,) + tuple(e.args[1:])
+                        except Exception:
+                            pass
             finally:
                 _CUR = prev
             STATS["paths"] += 1
@@ -1265,7 +1274,10 @@ def concretize(x: Sym, cap: int = 256) -> int:
             r = _timed_check(s)
             if r != "sat":
                 raise PathAbort("cannot concretise: " + r)
-            k = s.model().eval(x.e, model_completion=True).as_long()
+            k = s.model().eval(x.e, model_completion=True)
+            if not z3.is_int_value(k):
+                raise Unsupported("cannot concretise a value the model does not determine (uninterpreted term)")
+            k = k.as_long()
             ex._hints[pos] = k
         if ex.decide(x.e == k):
             return k
